@@ -425,7 +425,7 @@ def one_step_linear(ck, rng, c, ks, t=None, who_suffix=""):
         alt = r["xm"] + r["K"] @ (KR.ld(c["y"]) - s.g(c["x"], c["u"], t))
         ck.count("ekf_lin.mean", reg, key=key, nontrivial=not trivial)
         ck.count("ekf_lin.cov", reg, key=key)
-        tx, tP = tol_of(c, dx), tol_of(c, dP)
+        tx, tP = inherit_asym(r, c["P"], tol_of(c, dx), tol_of(c, dP))
         judge_post(ck, "ekf_lin", reg, "EKF.forward", out[0], out[1], r, tx, tP, wit, alt=alt)
         judge_valid(ck, "ekf", "lin", "EKF.forward", out[1], tP, wit)
         marks(ck, "ekf", c, ("tv" if (s.tv and t is not None) else "ti", sharp(ck, "ekf", tP, r)))
@@ -436,7 +436,7 @@ def one_step_linear(ck, rng, c, ks, t=None, who_suffix=""):
     # ---- UKF
     ukf = pp.module.UKF(model)
     for kname in ks:
-        k = pick_k(rng, n, kname)
+        k = kname[1] if isinstance(kname, tuple) else pick_k(rng, n, kname)      # ("=", value): replay
         kv = 3 - n if k is None else k
         if not n + kv > 0.05:                     # k = None with n >= 3 gives k = 3-n <= -n+3: fine; guard anyway
             continue
@@ -453,13 +453,13 @@ def one_step_linear(ck, rng, c, ks, t=None, who_suffix=""):
             continue
         ck.count("ukf_lin.mean", regk, key=(key, k), nontrivial=not trivial)
         ck.count("ukf_lin.cov", regk, key=(key, k))
-        tx, tP = tol_of(c, dxu, True), tol_of(c, dPu, True)
+        tx, tP = inherit_asym(r, c["P"], tol_of(c, dxu, True), tol_of(c, dPu, True))
         judge_post(ck, "ukf_lin", regk, "UKF.forward", out[0], out[1], r, tx, tP, witk)
         if kv >= 0:
             judge_valid(ck, "ukf", f"lin/k:{kc}", "UKF.forward", out[1], tP, witk)
         marks(ck, "ukf", c, (f"k/{kc}", "centre-weight>=0" if kv >= 0 else "centre-weight<0",
                              "tv" if (s.tv and t is not None) else "ti", sharp(ck, "ukf", tP, r)))
-        if len(ck.samples) < 5 and kname == "real-":
+        if len(ck.samples) < 5 and kname == "real-" and not trivial:
             ck.sample({"filter": "UKF", "k": k, "case": witness(c), "got_x": N64(out[0]).tolist(),
                        "kalman_x": KR.f64(r["xp"]).tolist()})
 
@@ -683,7 +683,9 @@ def judge_pf(ck, monitor, regime, c, N, o, xo, wit):
     ro = 1e3 * U * (KR.nrm(KR.f64(o["target"])) + s.fmag(c["x"], c["u"]) + s.lipA() * np.sqrt(n * KR.nrm(c["P"])))
     lam, E = np.linalg.eigh(V)
     dirs = np.concatenate([np.eye(n), E.T], 0)
-    var = np.concatenate([np.diag(V), np.maximum(lam, 0.0)])
+    # eigenvalues of V below the accuracy of V itself (degenerate directions: singular A, saturated
+    # nonlinearity) are not known to better than ~1e-12 lambda_max: floor them
+    var = np.concatenate([np.diag(V), np.maximum(lam, 0.0) + 1e-10 * max(lam[-1], 0.0)])
     sd = np.sqrt(var / N)
     err = np.abs(dirs @ d)
     tol = PF_SIGMA * sd * infl + 2 * np.abs(dirs @ b) / N + ro
@@ -705,9 +707,9 @@ def judge_pf_cov(ck, regime, c, Po, wit):
     judge_valid(ck, "pf", regime, "PF.forward", Po, C_VALID * U * c["n"] * (KR.nrm(Pg) + KR.nrm(c["Q"])), wit)
 
 
-def pf_call(ck, monitor, regime, c, model, N, seed_name, wit):
+def pf_call(ck, monitor, regime, c, model, N, seed, wit):
     pf = pp.module.PF(model, particles=int(N))
-    torch.manual_seed(ck.subseed(seed_name))
+    torch.manual_seed(int(seed))
     ok, out = call_filter(ck, monitor, regime, "PF.forward", pf, c, wit)
     if not (ok and shape_ok(ck, monitor, regime, "PF.forward", out[0], out[1], c["n"], wit)):
         return None
@@ -718,13 +720,14 @@ def cls_N(N):
     return f"1e{int(round(np.log10(N)))}"
 
 
-def pf_linear_case(ck, rng, c, N, tag, idx):
+def pf_linear_case(ck, rng, c, N, tag, idx, seed=None):
     s, n = c["sys"], c["n"]
+    seed = ck.subseed(f"pf/{tag}/{idx}") if seed is None else seed
     o = KR.pf_linear(s.A, s.B, s.C, s.D, s.c1, s.c2, c["R"], c["x"], c["P"], c["y"], c["u"], n)
     ess = N / o["rho"]
     reg = f"{tag}/N:{cls_N(N)}/n{n}/ess:{'<1e3' if ess < 1e3 else ('<1e4' if ess < 1e4 else '>=1e4')}"
-    wit = lambda **kw: witness(c, particles=int(N), torch_seed=ck.subseed(f"pf/{tag}/{idx}"), **kw)
-    out = pf_call(ck, "pf_lin", reg, c, LinNLS(s), N, f"pf/{tag}/{idx}", wit)
+    wit = lambda **kw: witness(c, particles=int(N), torch_seed=seed, **kw)
+    out = pf_call(ck, "pf_lin", reg, c, LinNLS(s), N, seed, wit)
     if out is None:
         return None
     judge_pf_cov(ck, f"lin/N:{cls_N(N)}", c, out[1], wit)
@@ -742,8 +745,9 @@ def pf_linear_case(ck, rng, c, N, tag, idx):
     return out
 
 
-def pf_nonlinear_case(ck, rng, c, N, idx):
+def pf_nonlinear_case(ck, rng, c, N, idx, seed=None):
     s, n = c["sys"], c["n"]
+    seed = ck.subseed(f"pfnl/{idx}") if seed is None else seed
     # resolution: the likelihood in whitened prior coordinates is at least sqrt(lambda_min(R))/(lip(g) |L|) wide
     Lz = np.sqrt(KR.nrm(n * c["P"]))
     width = np.sqrt(np.linalg.eigvalsh(c["R"])[0]) / (s.lipC() * Lz)
@@ -763,8 +767,8 @@ def pf_nonlinear_case(ck, rng, c, N, idx):
         ck.note_add("pf_nl_discarded_quadrature_not_converged")
         return
     reg = f"nl:{c['nl']}/N:{cls_N(N)}/n{n}"
-    wit = lambda **kw: witness(c, particles=int(N), torch_seed=ck.subseed(f"pfnl/{idx}"), **kw)
-    out = pf_call(ck, "pf_nl", reg, c, SmoothNLS(s), N, f"pfnl/{idx}", wit)
+    wit = lambda **kw: witness(c, particles=int(N), torch_seed=seed, **kw)
+    out = pf_call(ck, "pf_nl", reg, c, SmoothNLS(s), N, seed, wit)
     if out is None:
         return
     judge_pf_cov(ck, f"nl/N:{cls_N(N)}", c, out[1], wit)
@@ -844,6 +848,33 @@ def oracle_selftest(ck, rng):
     ck.note_max("max_oracle_selftest_pf_closed_form_vs_quadrature", wg)
     if wg > 1e-6:
         ck.inconclusive_because(f"particle-model closed form disagrees with quadrature ({wg:.2e})")
+
+
+# ======================================================================================== replay
+def replay(ck, v):
+    """Re-run the monitor of a recorded witness (one filter step from the recorded prior)."""
+    w = v["witness"]
+    g = lambda k: np.asarray(w[k], dtype=np.float64)
+    lin = [g(k) for k in ("A", "B", "C", "D", "c1", "c2")]
+    nonlinear = "Wf" in w
+    s = KR.SmoothSystem(*lin, *[g(k) for k in ("Wf", "Vx", "Vu", "bf", "Wg", "Ux", "Uu", "bg")]) if nonlinear \
+        else KR.LinearSystem(*lin, tv=float(w.get("tv", 0.0)))
+    c = {"sys": s, "n": int(w["n"]), "m": int(w["m"]), "p": int(w["p"]), "a_kind": "replay", "c_kind": "replay",
+         "p_kind": "replay", "y_kind": "replay", "far": 1.0, "nl": "replay",
+         "scales": (KR.nrm(g("P")), KR.nrm(g("Q")), KR.nrm(g("R")))}
+    for k in ("x", "P", "Q", "R", "u", "y"):
+        c[k] = g(k)
+    rng = ck.rng("replay")
+    if v["entry"] == "PF.forward":
+        fn = pf_nonlinear_case if nonlinear else pf_linear_case
+        args = (ck, rng, c, int(w["particles"]), "replay") if nonlinear else (ck, rng, c, int(w["particles"]), "replay", 0)
+        fn(*args, seed=int(w["torch_seed"]))
+    elif nonlinear:
+        model = SmoothNLS(s)
+        step_nonlinear(ck, rng, c, pp.module.EKF(model), pp.module.UKF(model), "replay", int(w.get("step", 0)))
+    else:
+        ks = (("=", w.get("k")),) if v["entry"] == "UKF.forward" else ()
+        one_step_linear(ck, rng, c, ks, t=w.get("t"))
 
 
 # ======================================================================================== driver
